@@ -32,7 +32,22 @@
     model records whether the stored status changes), the unconditional
     Status().Patch of the queue controller when nothing changed (empty patch),
     Prometheus metrics, NotFound handling of a deleted pod group / queue
-    (reconcile of an unknown name is a no-op), API errors. *)
+    (reconcile of an unknown name is a no-op), API errors.
+
+    WHEN THE QUEUE CONTROLLER WRITES.  QueueReconciler.Reconcile sends the
+    merge patch of the recomputed status unconditionally; the stored object
+    therefore changes iff the recomputed status differs from the stored one in
+    ANY of its four fields (allocated, allocatedNonPreemptible, requested,
+    childQueues).  [q_reconcile] / [q_writes] model exactly that.  The set of
+    fields a change detection in front of the patch would have to compare is
+    made explicit by [qfields] / [q_reconcile_with]: [cmp_all] is the current
+    behaviour (Proofs: [q_reconcile_with cmp_all = q_reconcile]); the variant
+    [cmp_without_anp] (compares childQueues, allocated, requested but not
+    allocatedNonPreemptible) is kept only to state what goes wrong with it.
+
+    Last section: pods, pod groups and queues on ONE store ([world]) and
+    histories of changes and reconciles of both controllers ([wevent],
+    [w_run]). *)
 From Coq Require Import List ZArith PArith Bool.
 Import ListNotations.
 Open Scope Z_scope.
@@ -282,3 +297,176 @@ Definition q_writes (n : positive) (c : cluster) : bool :=
 (** A sequence of reconcile events. *)
 Definition q_run (evs : list positive) (c : cluster) : cluster :=
   fold_left (fun c n => q_reconcile n c) evs c.
+
+(** * Which fields the queue controller's change detection compares *)
+
+Record qfields := { cmp_alloc : bool; cmp_anp : bool; cmp_req : bool; cmp_children : bool }.
+
+(** the current code: the patch is sent unconditionally, i.e. a difference in
+    any field reaches the store *)
+Definition cmp_all : qfields :=
+  {| cmp_alloc := true; cmp_anp := true; cmp_req := true; cmp_children := true |}.
+
+(** a change detection that forgets AllocatedNonPreemptible (NOT the current
+    code; named so that its defect can be stated) *)
+Definition cmp_without_anp : qfields :=
+  {| cmp_alloc := true; cmp_anp := false; cmp_req := true; cmp_children := true |}.
+
+(** does [a] (recomputed) differ from [b] (stored) in a compared field? *)
+Definition queue_differs (fs : qfields) (a b : queue) : bool :=
+  (cmp_alloc fs && negb (vec_eqb (s_alloc (q_status a)) (s_alloc (q_status b))))
+  || (cmp_anp fs && negb (vec_eqb (s_anp (q_status a)) (s_anp (q_status b))))
+  || (cmp_req fs && negb (vec_eqb (s_req (q_status a)) (s_req (q_status b))))
+  || (cmp_children fs && negb (pos_list_eqb (q_children a) (q_children b))).
+
+(** Reconcile with a change detection: the whole recomputed status is written
+    when a compared field differs, nothing otherwise. *)
+Definition q_reconcile_with (fs : qfields) (n : positive) (c : cluster) : cluster :=
+  {| c_queues := map (fun q => if Pos.eqb (q_name q) n
+                               then (if queue_differs fs (reconciled_queue c q) q then reconciled_queue c q else q)
+                               else q) (c_queues c);
+     c_pgs := c_pgs c |}.
+
+Definition q_writes_with (fs : qfields) (n : positive) (c : cluster) : bool :=
+  existsb (fun q => Pos.eqb (q_name q) n && queue_differs fs (reconciled_queue c q) q) (c_queues c).
+
+(** THE SWITCH: the fields whose change reaches the store in the current tree *)
+Definition q_detector : qfields := cmp_all.
+
+(** does some reconcile of the pass (executed in order) write? *)
+Fixpoint q_pass_writes (fs : qfields) (pass : list positive) (c : cluster) : bool :=
+  match pass with
+  | [] => false
+  | n :: r => q_writes_with fs n c || q_pass_writes fs r (q_reconcile_with fs n c)
+  end.
+
+(** * Worlds: pods, pod groups and queues on one store *)
+
+Record wgroup := {
+  wg_queue : option positive;   (* spec.queue, "" = None *)
+  wg_pods : list pod;           (* the pods carrying the group's annotation *)
+  wg_pg : podgroup;             (* spec.preemptibility, spec.priorityClassName, stored status *)
+}.
+
+Record world := {
+  w_classes : list prioclass;
+  w_groups : list wgroup;
+  w_queues : list queue;
+}.
+
+(** what the queue controller sees *)
+Definition w_cluster (w : world) : cluster :=
+  {| c_queues := w_queues w;
+     c_pgs := map (fun g => {| pg_queue := wg_queue g; pg_status := g_status (wg_pg g) |}) (w_groups w) |}.
+
+Fixpoint upd_nth {A} (i : nat) (f : A -> A) (l : list A) : list A :=
+  match l, i with
+  | [], _ => []
+  | x :: r, O => f x :: r
+  | x :: r, S j => x :: upd_nth j f r
+  end.
+
+(** changes made by users / the scheduler / kubelet between reconciles *)
+Inductive wchange :=
+| WSetSpec (i : nat) (s : pspec)                 (* edit of spec.preemptibility *)
+| WSetPrioClass (i : nat) (n : positive)         (* edit of spec.priorityClassName *)
+| WSetClasses (cls : list prioclass)             (* priority classes created / deleted / value changed *)
+| WSetPods (i : nat) (pods : list pod)           (* pods of group i created / deleted / phase or condition changed *)
+| WSetGroupQueue (i : nat) (q : option positive) (* edit of spec.queue *)
+| WSetParent (n : positive) (p : option positive)(* edit of a queue's spec.parentQueue *)
+| WAddQueue (n : positive) (p : option positive) (* queue created, empty status *)
+| WDelQueue (n : positive).
+
+Definition set_spec (s : pspec) (g : podgroup) : podgroup :=
+  {| g_spec := s; g_prio_class := g_prio_class g; g_status := g_status g |}.
+Definition set_prio_class (n : positive) (g : podgroup) : podgroup :=
+  {| g_spec := g_spec g; g_prio_class := n; g_status := g_status g |}.
+Definition wg_set_pg (f : podgroup -> podgroup) (g : wgroup) : wgroup :=
+  {| wg_queue := wg_queue g; wg_pods := wg_pods g; wg_pg := f (wg_pg g) |}.
+
+(** queues are listed in name order *)
+Fixpoint insert_queue (q : queue) (qs : list queue) : list queue :=
+  match qs with
+  | [] => [q]
+  | x :: r => if Pos.ltb (q_name q) (q_name x) then q :: qs else x :: insert_queue q r
+  end.
+
+Definition with_groups (w : world) (gs : list wgroup) : world :=
+  {| w_classes := w_classes w; w_groups := gs; w_queues := w_queues w |}.
+Definition with_queues (w : world) (qs : list queue) : world :=
+  {| w_classes := w_classes w; w_groups := w_groups w; w_queues := qs |}.
+
+Definition w_apply (ch : wchange) (w : world) : world :=
+  match ch with
+  | WSetSpec i s => with_groups w (upd_nth i (wg_set_pg (set_spec s)) (w_groups w))
+  | WSetPrioClass i n => with_groups w (upd_nth i (wg_set_pg (set_prio_class n)) (w_groups w))
+  | WSetClasses cls => {| w_classes := cls; w_groups := w_groups w; w_queues := w_queues w |}
+  | WSetPods i pods =>
+      with_groups w (upd_nth i (fun g => {| wg_queue := wg_queue g; wg_pods := pods; wg_pg := wg_pg g |}) (w_groups w))
+  | WSetGroupQueue i q =>
+      with_groups w (upd_nth i (fun g => {| wg_queue := q; wg_pods := wg_pods g; wg_pg := wg_pg g |}) (w_groups w))
+  | WSetParent n p =>
+      with_queues w (map (fun q => if Pos.eqb (q_name q) n
+                                   then {| q_name := q_name q; q_parent := p; q_status := q_status q; q_children := q_children q |}
+                                   else q) (w_queues w))
+  | WAddQueue n p =>
+      with_queues w (insert_queue {| q_name := n; q_parent := p; q_status := rzero; q_children := [] |} (w_queues w))
+  | WDelQueue n => with_queues w (filter (fun q => negb (Pos.eqb (q_name q) n)) (w_queues w))
+  end.
+
+(** one event of a history: a change, or one Reconcile of either controller *)
+Inductive wevent :=
+| WChange (ch : wchange)
+| WRecGroup (i : nat)        (* PodGroupReconciler.Reconcile of the i-th pod group *)
+| WRecQueue (n : positive).  (* QueueReconciler.Reconcile of queue n *)
+
+Definition w_step_with (rule : bool -> vec -> vec -> vec) (fs : qfields) (e : wevent) (w : world) : world :=
+  match e with
+  | WChange ch => w_apply ch w
+  | WRecGroup i =>
+      with_groups w (upd_nth i (fun g => wg_set_pg (pg_step_with rule (w_classes w) (wg_pods g)) g) (w_groups w))
+  | WRecQueue n => with_queues w (c_queues (q_reconcile_with fs n (w_cluster w)))
+  end.
+
+(** does the reconcile change a stored object? *)
+Definition w_event_writes_with rule (fs : qfields) (e : wevent) (w : world) : bool :=
+  match e with
+  | WChange _ => false
+  | WRecGroup i => match nth_error (w_groups w) i with
+                   | Some g => pg_writes_with rule (w_classes w) (wg_pods g) (wg_pg g)
+                   | None => false
+                   end
+  | WRecQueue n => q_writes_with fs n (w_cluster w)
+  end.
+
+(** does the reconcile return an error (a pod's resources cannot be extracted)? *)
+Definition w_event_errs rule (e : wevent) (w : world) : bool :=
+  match e with
+  | WRecGroup i => match nth_error (w_groups w) i with
+                   | Some g => match pg_reconcile_with rule (w_classes w) (wg_pods g) (wg_pg g) with
+                               | None => true
+                               | Some _ => false
+                               end
+                   | None => false
+                   end
+  | _ => false
+  end.
+
+Definition is_reconcile (e : wevent) : bool := match e with WChange _ => false | _ => true end.
+
+Definition w_run_with rule fs (h : list wevent) (w : world) : world :=
+  fold_left (fun w e => w_step_with rule fs e w) h w.
+
+(** a pass made of reconciles only, executed in order, in which no reconcile
+    writes and none fails *)
+Fixpoint w_pass_quiet_with rule fs (pass : list wevent) (w : world) : bool :=
+  match pass with
+  | [] => true
+  | e :: r => is_reconcile e && negb (w_event_writes_with rule fs e w) && negb (w_event_errs rule e w)
+              && w_pass_quiet_with rule fs r (w_step_with rule fs e w)
+  end.
+
+Definition w_step := w_step_with anp_rule q_detector.
+Definition w_run := w_run_with anp_rule q_detector.
+Definition w_event_writes := w_event_writes_with anp_rule q_detector.
+Definition w_pass_quiet := w_pass_quiet_with anp_rule q_detector.
